@@ -1,8 +1,10 @@
 (* Proofs for property C13 (model/TermKeys.v, model/TermMouse.v). *)
 From Coq Require Import ZifyBool.
 From Vx Require Import base.Prelude gen.GenKeys gen.GenTermKeys gen.GenParser model.Keys model.ParserTypes model.Parser
-  model.TermMouse model.TermKeys.
+  model.Vt500Spec proofs.ParserConform model.TermMouse model.TermKeys.
 Local Open Scope Z_scope.
+
+Ltac Zify.zify_post_hook ::= Z.div_mod_to_equations.
 
 (* ================= generalities ================= *)
 
@@ -93,10 +95,85 @@ Proof.
   intros H1 H2. unfold matches. cbv zeta. rewrite H1, H2. reflexivity.
 Qed.
 
-(* ================= special keys: a finite domain ================= *)
+(* ================= finite domains: a check evaluated by the kernel ================= *)
+Definition rune_seg (rs : list Z) : list (list Z) := map (fun r => [r]) rs.
+
+(* [bs] read back by the host is one key event with the code [c] and the modifiers [m] without locks *)
+Definition finite_check (bs : list Z) (c m : Z) : bool :=
+  let its := parse_segments [bs; []] in
+  no_print its &&
+  match host_items ascii_uni rune_seg false its with
+  | [HKey k'] => (k_code k' =? c) && (strip2 m =? strip2 (k_mods k'))
+                 && (nonshift (strip_locks (k_mods k')) =? nonshift (Z.ldiff m 192))
+                 && (k_mods k' =? Z.ldiff m 192)
+                 && (k_event k' =? EventPress)
+  | _ => false
+  end.
+
+Lemma finite_transfer u seg k bs : finite_check bs (k_code k) (k_mods k) = true ->
+  exists k', host_read u seg bs = [HKey k'] /\ roundtrip_ok u k [HKey k'] = true /\
+             k_code k' = k_code k /\ k_mods k' = chord_mods k.
+Proof.
+  intros Hall. unfold host_read. unfold finite_check in Hall. cbv zeta in Hall.
+  apply andb_true_iff in Hall. destruct Hall as [Hnp Hall].
+  pose proof (host_items_sim u ascii_uni seg rune_seg _ false Hnp) as Hsim.
+  destruct (host_items ascii_uni rune_seg false _) as [|[k0| | | | | | |] [|? ?]]; try discriminate.
+  inversion Hsim as [|a b l l' Hab Hl Ea Eb]; subst. inversion Hl; subst.
+  destruct a as [k'| | | | | | |]; cbn in Hab; try contradiction.
+  destruct Hab as (Ec & Em & Ee).
+  exists k'. split; [reflexivity|].
+  repeat (apply andb_true_iff in Hall; destruct Hall as [Hall ?]).
+  rewrite <- Ec, <- Em, <- Ee in *.
+  assert (Hcode : k_code k' = k_code k) by lia.
+  assert (Hmods : k_mods k' = chord_mods k) by (unfold chord_mods; lia).
+  split; [|auto].
+  unfold roundtrip_ok. rewrite matches_rule1; [|lia|lia].
+  unfold chord_mods. cbn [andb]. apply andb_true_iff. split; lia.
+Qed.
+
+(* a table of such checks: key codes [cs] x every modifier mask below 256 that passes [guard] *)
+Definition table_check (cs : list Z) (bytes : Z -> Z -> list Z) (guard : Z -> bool) : bool :=
+  forallb (fun c => forallb (fun m => if (Z.land m 56 =? 0) && guard m then finite_check (bytes c m) c m else true)
+                            (zrange 0 256)) cs.
+
+Lemma table_check_use cs bytes guard c m : table_check cs bytes guard = true ->
+  In c cs -> in_range m 0 255 = true -> Z.land m 56 = 0 -> guard m = true ->
+  finite_check (bytes c m) c m = true.
+Proof.
+  intros Ht Hc Hm H56 Hg. unfold table_check in Ht.
+  rewrite forallb_forall in Ht. specialize (Ht _ Hc).
+  rewrite forallb_forall in Ht.
+  assert (Hin : In m (zrange 0 256)) by (apply zrange_In; unfold in_range in Hm; lia).
+  specialize (Ht _ Hin). rewrite H56, Hg in Ht. exact Ht.
+Qed.
+
+Lemma scope_split k : mods_in_scope k = true -> in_range (k_mods k) 0 255 = true /\ Z.land (k_mods k) 56 = 0.
+Proof. unfold mods_in_scope. intros H. apply andb_true_iff in H. destruct H. split; [assumption|lia]. Qed.
+
+(* facts about a modifier mask in scope, by enumeration *)
+Definition mods_facts_check (m : Z) : bool :=
+  if Z.land m 56 =? 0 then
+    (xterm_mods m =? Z.ldiff m 192) && (strip2 m =? Z.ldiff m 192) && in_range (Z.ldiff m 192) 0 7 &&
+    (Z.land m ModCtrl =? Z.land (Z.ldiff m 192) 4) && (Z.land m ModAlt =? Z.land (Z.ldiff m 192) 2)
+  else true.
+
+Lemma mods_facts m : in_range m 0 255 = true -> Z.land m 56 = 0 ->
+  xterm_mods m = Z.ldiff m 192 /\ strip2 m = Z.ldiff m 192 /\ 0 <= Z.ldiff m 192 <= 7 /\
+  Z.land m ModCtrl = Z.land (Z.ldiff m 192) 4 /\ Z.land m ModAlt = Z.land (Z.ldiff m 192) 2.
+Proof.
+  intros Hm H56.
+  assert (Hall : forallb mods_facts_check (zrange 0 256) = true) by (vm_compute; reflexivity).
+  rewrite forallb_forall in Hall.
+  assert (Hin : In m (zrange 0 256)) by (apply zrange_In; unfold in_range in Hm; lia).
+  specialize (Hall _ Hin). unfold mods_facts_check in Hall. rewrite H56 in Hall. cbn [Z.eqb] in Hall.
+  unfold in_range in Hall. lia.
+Qed.
+
+(* ================= special keys ================= *)
 
 (* encodeXterm for a key of xtermKeymap: a function of the key code, Shift/Alt/Ctrl and the modes *)
-Definition special_bytes (c xm : Z) (kp ck : bool) : list Z :=
+Definition special_bytes (kp ck : bool) (c m : Z) : list Z :=
+  let xm := xterm_mods m in
   match (if xm =? 0 then encode_plain c kp ck else None) with
   | Some v => v
   | None =>
@@ -114,7 +191,7 @@ Proof.
 Qed.
 
 Lemma encode_special u k kp ck : existsb (Z.eqb (k_code k)) special_keys = true ->
-  encode_xterm u k kp ck = special_bytes (k_code k) (xterm_mods (k_mods k)) kp ck.
+  encode_xterm u k kp ck = special_bytes kp ck (k_code k) (k_mods k).
 Proof.
   intros H. apply existsb_lookup_kc in H.
   unfold encode_xterm, special_bytes. cbv zeta.
@@ -123,57 +200,795 @@ Proof.
   destruct (lookup_kc xtermKeymap (k_code k)) as [[num fin]|]; [reflexivity|contradiction].
 Qed.
 
-Definition rune_seg (rs : list Z) : list (list Z) := map (fun r => [r]) rs.
-
-(* the check evaluated on every key of xtermKeymap, every modifier mask below 256 and the four mode sets *)
-Definition special_check (c m : Z) (kp ck : bool) : bool :=
-  if Z.land m 56 =? 0 then
-    let its := parse_segments [special_bytes c (xterm_mods m) kp ck; []] in
-    no_print its &&
-    match host_items ascii_uni rune_seg false its with
-    | [HKey k'] => (k_code k' =? c) && (strip2 m =? strip2 (k_mods k'))
-                   && (nonshift (strip_locks (k_mods k')) =? nonshift (Z.ldiff m 192))
-                   && (k_mods k' =? Z.ldiff m 192)
-                   && (k_event k' =? EventPress)
-    | _ => false
-    end
-  else true.
-
 Lemma special_all :
-  forallb (fun c => forallb (fun m => forallb (fun kp => forallb (fun ck => special_check c m kp ck)
-    [true; false]) [true; false]) (zrange 0 256)) special_keys = true.
+  forallb (fun kp => forallb (fun ck => table_check special_keys (special_bytes kp ck) (fun _ => true))
+    [true; false]) [true; false] = true.
 Proof. vm_compute. reflexivity. Qed.
 
-Lemma special_roundtrip u seg k kp ck md :
+Lemma special_roundtrip u seg k md :
   existsb (Z.eqb (k_code k)) special_keys = true -> mods_in_scope k = true ->
-  m_deckpam md = kp -> m_decckm md = ck ->
   exists k', forward u seg md (TKey k) = [HKey k'] /\ roundtrip_ok u k [HKey k'] = true /\
              k_code k' = k_code k /\ k_mods k' = chord_mods k.
 Proof.
-  intros Hc Hm Hkp Hck. unfold forward, term_update, host_read. rewrite Hkp, Hck.
-  rewrite (encode_special u k kp ck Hc).
-  unfold mods_in_scope in Hm. apply andb_true_iff in Hm. destruct Hm as [Hr H56].
-  assert (Hin : In (k_mods k) (zrange 0 256)) by (apply zrange_In; unfold in_range in Hr; lia).
+  intros Hc Hm. unfold forward, term_update.
+  rewrite (encode_special u k _ _ Hc).
+  destruct (scope_split k Hm) as [Hr H56].
   assert (Hcin : In (k_code k) special_keys).
   { apply existsb_exists in Hc. destruct Hc as (x & Hx & Hxe). apply Z.eqb_eq in Hxe. now subst. }
   pose proof special_all as Hall.
-  rewrite forallb_forall in Hall. specialize (Hall _ Hcin).
-  rewrite forallb_forall in Hall. specialize (Hall _ Hin).
-  rewrite forallb_forall in Hall. specialize (Hall _ (bools_In kp)).
-  rewrite forallb_forall in Hall. specialize (Hall _ (bools_In ck)).
-  unfold special_check in Hall. rewrite H56 in Hall. cbv zeta in Hall.
-  apply andb_true_iff in Hall. destruct Hall as [Hnp Hall].
-  pose proof (host_items_sim u ascii_uni seg rune_seg _ false Hnp) as Hsim.
-  destruct (host_items ascii_uni rune_seg false _) as [|[k0| | | | | | |] [|? ?]]; try discriminate.
-  inversion Hsim as [|a b l l' Hab Hl Ea Eb]; subst. inversion Hl; subst.
-  destruct a as [k'| | | | | | |]; cbn in Hab; try contradiction.
-  destruct Hab as (Ec & Em & Ee).
-  exists k'. split; [reflexivity|].
+  rewrite forallb_forall in Hall. specialize (Hall _ (bools_In (m_deckpam md))).
+  rewrite forallb_forall in Hall. specialize (Hall _ (bools_In (m_decckm md))).
+  apply finite_transfer.
+  exact (table_check_use _ _ _ _ _ Hall Hcin Hr H56 eq_refl).
+Qed.
+
+(* ================= UTF-8: what encodeXterm writes is what the parser's reader decodes ================= *)
+Lemma decode_all_utf8 r : rune_valid r = true -> decode_all (utf8_enc r) = [r].
+Proof.
+  intros Hv. unfold rune_valid in Hv. unfold utf8_enc, fmt_c, MaxRune in *.
+  replace ((0 <=? r) && (r <=? 1114111) && negb ((55296 <=? r) && (r <=? 57343))) with true by lia.
+  cbv zeta.
+  destruct (r <? 128) eqn:E1.
+  { unfold decode_all. cbn [length decode_fuel decode1]. rewrite E1. reflexivity. }
+  destruct (r <? 2048) eqn:E2.
+  { unfold decode_all. cbn [length decode_fuel decode1].
+    replace (192 + r / 64 <? 128) with false by lia.
+    replace (in_range (192 + r / 64) 194 223) with true by (unfold in_range; lia).
+    replace (cont (128 + r mod 64)) with true by (unfold cont, in_range; lia).
+    cbn [decode1]. f_equal. lia. }
+  destruct (r <? 65536) eqn:E3.
+  { unfold decode_all. cbn [length decode_fuel decode1].
+    replace (224 + r / 4096 <? 128) with false by lia.
+    replace (in_range (224 + r / 4096) 194 223) with false by (unfold in_range; lia).
+    replace (in_range (224 + r / 4096) 224 239) with true by (unfold in_range; lia).
+    replace (in_range (128 + (r / 64) mod 64) (if 224 + r / 4096 =? 224 then 160 else 128)
+               (if 224 + r / 4096 =? 237 then 159 else 191)) with true
+      by (unfold in_range; destruct (224 + r / 4096 =? 224) eqn:Ea; destruct (224 + r / 4096 =? 237) eqn:Eb; lia).
+    replace (cont (128 + r mod 64)) with true by (unfold cont, in_range; lia).
+    cbn [andb decode1]. f_equal. lia. }
+  unfold decode_all. cbn [length decode_fuel decode1].
+  replace (240 + r / 262144 <? 128) with false by lia.
+  replace (in_range (240 + r / 262144) 194 223) with false by (unfold in_range; lia).
+  replace (in_range (240 + r / 262144) 224 239) with false by (unfold in_range; lia).
+  replace (in_range (240 + r / 262144) 240 244) with true by (unfold in_range; lia).
+  replace (in_range (128 + (r / 4096) mod 64) (if 240 + r / 262144 =? 240 then 144 else 128)
+             (if 240 + r / 262144 =? 244 then 143 else 191)) with true
+    by (unfold in_range; destruct (240 + r / 262144 =? 240) eqn:Ea; destruct (240 + r / 262144 =? 244) eqn:Eb; lia).
+  replace (cont (128 + (r / 64) mod 64)) with true by (unfold cont, in_range; lia).
+  replace (cont (128 + r mod 64)) with true by (unfold cont, in_range; lia).
+  cbn [andb decode1]. f_equal. lia.
+Qed.
+
+(* ================= the parser on one forwarded event ================= *)
+Lemma finish_idle p : exitf p = None -> finish p = [IEof].
+Proof.
+  intros He. unfold finish. rewrite step_is_spec_step.
+  destruct p as [s e i ps ig o a d t]. cbn in He. subst e. reflexivity.
+Qed.
+
+Lemma timer_fire_idle p : timer p = false -> timer_fire p = (p, []).
+Proof. intros Ht. unfold timer_fire. rewrite Ht. reflexivity. Qed.
+
+(* bytes after which the parser waits for nothing (no armed timer, no open string) *)
+Lemma parse_one bs p o : feed pinit (decode_all bs) = (p, o, true) -> timer p = false -> exitf p = None ->
+  parse_segments [bs; []] = canon (o ++ [IEof]).
+Proof.
+  intros Hf Ht He. unfold parse_segments. cbn [feed_segments]. rewrite Hf.
+  rewrite (timer_fire_idle p Ht). cbn [decode_all length decode_fuel feed app].
+  rewrite (finish_idle p He). rewrite app_nil_r. reflexivity.
+Qed.
+
+Lemma step_ground_print r : 32 <= r -> step pinit r = (pinit, [IPrint [r]], true).
+Proof.
+  intros Hr. rewrite step_is_spec_step. unfold spec_step. cbn [andb].
+  unfold spec_anywhere, eof_rune.
+  replace (r =? -1) with false by lia. replace ((r =? 24) || (r =? 26)) with false by lia.
+  replace (r =? 27) with false by lia.
+  cbn [set_timer pinit st]. unfold spec_trans, c0exec.
+  replace (in_range r 0 23 || (r =? 25) || in_range r 28 31) with false by (unfold in_range; lia).
+  reflexivity.
+Qed.
+
+Lemma parse_printed r : 32 <= r -> rune_valid r = true ->
+  parse_segments [utf8_enc r; []] = [IPrint [r]; IEof].
+Proof.
+  intros Hr Hv. rewrite (parse_one _ pinit [IPrint [r]]); [reflexivity| |reflexivity|reflexivity].
+  rewrite (decode_all_utf8 r Hv). cbn [feed]. rewrite (step_ground_print r Hr). reflexivity.
+Qed.
+
+(* ================= printable keys, symbolically ================= *)
+Lemma lookup_str_none t c : forallb (fun e => MaxRune <? fst e) t = true -> c <= MaxRune -> lookup_str t c = None.
+Proof.
+  unfold lookup_str. induction t as [|e t IH]; intros H Hc; [reflexivity|].
+  cbn [forallb] in H. apply andb_true_iff in H. destruct H as [He Ht].
+  cbn [find]. replace (fst e =? c) with false by lia. auto.
+Qed.
+
+Lemma lookup_kc_none c : c <= MaxRune -> lookup_kc xtermKeymap c = None.
+Proof.
+  intros Hc. unfold lookup_kc.
+  assert (H : forallb (fun e => MaxRune <? fst e) xtermKeymap = true) by (vm_compute; reflexivity).
+  revert H. generalize xtermKeymap. induction l as [|e t IH]; intros H; [reflexivity|].
+  cbn [forallb] in H. apply andb_true_iff in H. destruct H as [He Ht].
+  cbn [find]. replace (fst e =? c) with false by lia. auto.
+Qed.
+
+Lemma tables_beyond_unicode :
+  forallb (fun e => MaxRune <? fst e) keymap = true /\
+  forallb (fun e => MaxRune <? fst e) cursorKeysApplicationMode = true /\
+  forallb (fun e => MaxRune <? fst e) cursorKeysNormalMode = true /\
+  forallb (fun e => MaxRune <? fst e) applicationKeymap = true /\
+  forallb (fun e => MaxRune <? fst e) numericKeymap = true.
+Proof. vm_compute. repeat split; reflexivity. Qed.
+
+Lemma encode_plain_rune c kp ck : c < MaxRune -> encode_plain c kp ck = Some (utf8_enc c).
+Proof.
+  intros Hc. unfold encode_plain.
+  destruct tables_beyond_unicode as (T1 & T2 & T3 & T4 & T5).
+  assert (Hc' : c <= MaxRune) by (unfold MaxRune in *; lia).
+  rewrite (lookup_str_none keymap c T1 Hc').
+  assert (E2 : lookup_str (if ck then cursorKeysApplicationMode else cursorKeysNormalMode) c = None)
+    by (destruct ck; apply lookup_str_none; assumption).
+  assert (E3 : lookup_str (if kp then applicationKeymap else numericKeymap) c = None)
+    by (destruct kp; apply lookup_str_none; assumption).
+  rewrite E2, E3. apply Z.ltb_lt in Hc. rewrite Hc. reflexivity.
+Qed.
+
+(* no Shift/Alt/Ctrl: the key code is sent, whatever the text *)
+Lemma encode_unmodified u k kp ck : xterm_mods (k_mods k) = 0 -> k_code k < MaxRune ->
+  encode_xterm u k kp ck = utf8_enc (k_code k).
+Proof.
+  intros Hm Hc. unfold encode_xterm. cbv zeta. rewrite Hm. cbn [Z.eqb].
+  rewrite (encode_plain_rune _ kp ck Hc). reflexivity.
+Qed.
+
+(* ================= chords with text: unmodified and Shift ================= *)
+Definition oracle_ok (u : uni) : Prop :=
+  u_upper u 127 = false /\ (forall r, u_upper u r = true -> u_tolower u r <> 127) /\
+  (forall c, 97 <= c <= 122 -> u_lower u c = true).
+
+Lemma host_read_printed u seg r : seg [r] = [[r]] -> 32 <= r -> rune_valid r = true ->
+  host_read u seg (utf8_enc r) = [HKey (decode_key u (SPrint [r]))].
+Proof.
+  intros Hs Hr Hv. unfold host_read. rewrite (parse_printed r Hr Hv).
+  cbn [host_items]. rewrite Hs. reflexivity.
+Qed.
+
+(* decodeKey on one printed rune other than DEL *)
+Lemma decode_printed u r : (forall r, u_upper u r = true -> u_tolower u r <> 127) -> r <> 127 ->
+  decode_key u (SPrint [r]) =
+    if u_upper u r then mkKey [r] (u_tolower u r) r 0 ModShift 0 else mkKey [r] r 0 0 0 0.
+Proof.
+  intros H127 Hr. unfold decode_key, decode_pre, decode_print.
+  destruct (u_upper u r) eqn:Eu; cbn [k_code k_shifted k_base k_mods k_text k_event].
+  - specialize (H127 r Eu). unfold KeyBackspace. replace (u_tolower u r =? 127) with false by lia. reflexivity.
+  - unfold KeyBackspace. replace (r =? 127) with false by lia. reflexivity.
+Qed.
+
+Lemma matches_rule3 u k r mods :
+  (k_shifted k =? r) = true -> (strip2 mods =? Z.ldiff (strip2 (k_mods k)) ModShift) = true -> matches u k r mods = true.
+Proof.
+  intros H1 H2. unfold matches. cbv zeta. rewrite H1, H2. cbn [andb].
+  repeat (rewrite orb_true_r || cbn [orb]). reflexivity.
+Qed.
+
+Lemma matches_rule5 u k r mods :
+  u_letter u r = false -> u_graphic u r = true -> (k_code k =? r) = true ->
+  (Z.ldiff (strip2 (k_mods k)) ModShift =? Z.ldiff (strip2 mods) ModShift) = true -> matches u k r mods = true.
+Proof.
+  intros H1 H2 H3 H4. unfold matches. cbv zeta. rewrite H1, H2, H3, H4. cbn [andb negb orb].
+  repeat (rewrite orb_true_r || cbn [orb]). reflexivity.
+Qed.
+
+Lemma matches_rule6 u k r mods :
+  (Z.land (strip2 mods) ModShift =? 0) = false -> u_lower u r = true ->
+  k_text k = [rune_fix (u_toupper u r)] ->
+  (Z.ldiff (strip2 mods) ModShift =? Z.ldiff (strip2 (k_mods k)) ModShift) = true -> matches u k r mods = true.
+Proof.
+  intros H1 H2 H3 H4. unfold matches. cbv zeta. rewrite H1, H2, H3, H4.
+  replace (zlist_eqb [rune_fix (u_toupper u r)] [rune_fix (u_toupper u r)]) with true
+    by (unfold zlist_eqb; cbn [list_eqb]; rewrite Z.eqb_refl; reflexivity).
+  cbn [andb negb]. repeat (rewrite orb_true_r || cbn [orb]). reflexivity.
+Qed.
+
+Lemma xterm_mods_zero m : xterm_mods m = 0 -> Z.land m ModCtrl = 0 /\ Z.land m ModAlt = 0.
+Proof.
+  unfold xterm_mods. intros H. apply Z.lor_eq_0_iff in H. destruct H as [H H3].
+  apply Z.lor_eq_0_iff in H. destruct H as [H1 H2]. auto.
+Qed.
+
+Lemma utf8_single r : utf8 [r] = utf8_enc r.
+Proof. unfold utf8. cbn [flat_map]. apply app_nil_r. Qed.
+
+(* an unmodified printable key with its text: the code is written *)
+Lemma encode_chord_plain u k kp ck : xterm_mods (k_mods k) = 0 -> 32 <= k_code k -> rune_valid (k_code k) = true ->
+  k_text k = [k_code k] -> encode_xterm u k kp ck = utf8_enc (k_code k).
+Proof.
+  intros Hm Hr Hv Ht.
+  assert (Hle : k_code k <= MaxRune) by (unfold rune_valid, MaxRune in *; lia).
+  destruct (Z.eq_dec (k_code k) MaxRune) as [He|Hne].
+  - unfold encode_xterm. cbv zeta. rewrite Hm. cbn [Z.eqb].
+    unfold encode_plain. destruct tables_beyond_unicode as (T1 & T2 & T3 & T4 & T5).
+    rewrite (lookup_str_none keymap _ T1 Hle).
+    replace (lookup_str (if ck then cursorKeysApplicationMode else cursorKeysNormalMode) (k_code k)) with (@None (list Z))
+      by (symmetry; destruct ck; apply lookup_str_none; assumption).
+    replace (lookup_str (if kp then applicationKeymap else numericKeymap) (k_code k)) with (@None (list Z))
+      by (symmetry; destruct kp; apply lookup_str_none; assumption).
+    replace (k_code k <? MaxRune) with false by lia.
+    replace (k_code k =? KeyTab) with false by (unfold KeyTab; lia). cbn [andb].
+    rewrite (lookup_kc_none _ Hle). rewrite Ht.
+    destruct (xterm_mods_zero _ Hm) as [Hc Ha]. rewrite Hc, Ha. cbn [negb andb Z.eqb].
+    apply utf8_single.
+  - apply encode_unmodified; [assumption|lia].
+Qed.
+
+Lemma zlist_eqb_eq : forall a b, zlist_eqb a b = true -> a = b.
+Proof.
+  unfold zlist_eqb. induction a as [|x a IH]; destruct b as [|y b]; cbn [list_eqb]; intros H; try discriminate; auto.
+  apply andb_true_iff in H. destruct H as [H1 H2]. apply Z.eqb_eq in H1. subst. f_equal. auto.
+Qed.
+
+Lemma zlist_eqb_refl a : zlist_eqb a a = true.
+Proof. unfold zlist_eqb. induction a; cbn [list_eqb]; auto. rewrite Z.eqb_refl. auto. Qed.
+
+Lemma plain_roundtrip u seg k md : (forall r, seg [r] = [[r]]) -> oracle_ok u ->
+  mods_in_scope k = true -> chord_plain k = true ->
+  roundtrip_ok u k (forward u seg md (TKey k)) = true /\ text_ok k (forward u seg md (TKey k)) = true.
+Proof.
+  intros Hseg (_ & H127 & _) Hsc Hp.
+  destruct (scope_split k Hsc) as [Hr H56]. destruct (mods_facts _ Hr H56) as (Hx & Hs2 & _ & _ & _).
+  unfold chord_plain, chord_mods in Hp.
+  repeat (apply andb_true_iff in Hp; destruct Hp as [Hp ?]).
+  match goal with H : printable_rune _ = true |- _ =>
+    unfold printable_rune in H; apply andb_true_iff in H; destruct H as [Hge Hv] end.
+  assert (Hm0 : Z.ldiff (k_mods k) 192 = 0) by lia.
+  assert (Ht : k_text k = [k_code k]) by (apply zlist_eqb_eq; assumption).
+  unfold forward, term_update.
+  rewrite encode_chord_plain; [|lia|lia|assumption|assumption].
+  rewrite host_read_printed; [|apply Hseg|lia|assumption].
+  rewrite decode_printed; [|assumption|lia].
+  unfold roundtrip_ok, text_ok, chord_mods. rewrite Hm0.
+  destruct (u_upper u (k_code k)) eqn:Eu; cbn [k_text k_mods k_event k_code k_shifted].
+  - rewrite matches_rule3; [|cbn [k_shifted]; lia|cbn [k_mods]; rewrite Hs2, Hm0; vm_compute; reflexivity].
+    rewrite Ht. split; [vm_compute; reflexivity|apply zlist_eqb_refl].
+  - rewrite matches_rule1; [|cbn [k_code]; lia|cbn [k_mods]; rewrite Hs2, Hm0; vm_compute; reflexivity].
+    rewrite Ht. split; [vm_compute; reflexivity|apply zlist_eqb_refl].
+Qed.
+
+(* Shift with text: the text is written *)
+Lemma encode_chord_shift u k kp ck s : xterm_mods (k_mods k) = ModShift ->
+  Z.land (k_mods k) ModCtrl = 0 -> Z.land (k_mods k) ModAlt = 0 ->
+  32 <= k_code k <= MaxRune -> k_text k = [s] -> encode_xterm u k kp ck = utf8_enc s.
+Proof.
+  intros Hm Hc Ha Hr Ht. unfold encode_xterm. cbv zeta. rewrite Hm. cbn [Z.eqb ModShift Pos.eqb].
+  replace (k_code k =? KeyTab) with false by (unfold KeyTab; lia). cbn [andb].
+  rewrite (lookup_kc_none (k_code k)) by lia. rewrite Ht, Hc, Ha. cbn [negb andb Z.eqb].
+  apply utf8_single.
+Qed.
+
+Lemma shift_roundtrip u seg k md : (forall r, seg [r] = [[r]]) -> oracle_ok u ->
+  mods_in_scope k = true -> chord_shift u k = true ->
+  roundtrip_ok u k (forward u seg md (TKey k)) = true /\ text_ok k (forward u seg md (TKey k)) = true.
+Proof.
+  intros Hseg (_ & H127 & _) Hsc Hp.
+  destruct (scope_split k Hsc) as [Hr H56]. destruct (mods_facts _ Hr H56) as (Hx & Hs2 & _ & Hctl & Halt).
+  unfold chord_shift, chord_mods in Hp.
+  apply andb_true_iff in Hp. destruct Hp as [Hm1 Hp].
+  destruct (k_text k) as [|s [|? ?]] eqn:Ht; try discriminate.
+  repeat (apply andb_true_iff in Hp; destruct Hp as [Hp ?]).
+  unfold printable_rune in *.
+  repeat match goal with H : _ && _ = true |- _ => apply andb_true_iff in H; destruct H end.
+  assert (Hm0 : Z.ldiff (k_mods k) 192 = 1) by (unfold ModShift in *; lia).
+  assert (Hcv : 32 <= k_code k <= MaxRune) by (unfold rune_valid, MaxRune in *; lia).
+  unfold forward, term_update.
+  rewrite (encode_chord_shift u k _ _ s); [|rewrite Hx, Hm0; reflexivity|rewrite Hctl, Hm0; reflexivity|rewrite Halt, Hm0; reflexivity|assumption|exact Ht].
+  rewrite host_read_printed; [|apply Hseg|lia|assumption].
+  rewrite decode_printed; [|assumption|lia].
+  unfold roundtrip_ok, text_ok, chord_mods. rewrite Hm0, Ht.
+  match goal with H : _ || _ = true |- _ => apply orb_true_iff in H; destruct H as [Hl|Hn] end.
+  - (* a lower-case letter and its upper-case text: the last rule of Matches *)
+    apply andb_true_iff in Hl. destruct Hl as [Hlow Hs].
+    assert (Es : s = u_toupper u (k_code k)) by lia.
+    assert (Efix : rune_fix (u_toupper u (k_code k)) = s) by (unfold rune_fix; rewrite <- Es; replace (rune_valid s) with true by auto; reflexivity).
+    destruct (u_upper u s) eqn:Eu; cbn [k_text k_mods k_event].
+    + rewrite matches_rule6; [|rewrite Hs2, Hm0; reflexivity|assumption|cbn [k_text]; rewrite Efix; reflexivity|cbn [k_mods]; rewrite Hs2, Hm0; vm_compute; reflexivity].
+      split; [vm_compute; reflexivity|apply zlist_eqb_refl].
+    + rewrite matches_rule6; [|rewrite Hs2, Hm0; reflexivity|assumption|cbn [k_text]; rewrite Efix; reflexivity|cbn [k_mods]; rewrite Hs2, Hm0; vm_compute; reflexivity].
+      split; [vm_compute; reflexivity|apply zlist_eqb_refl].
+  - (* a non-letter that Shift leaves alone: rule 5 *)
+    repeat (apply andb_true_iff in Hn; destruct Hn as [Hn ?]).
+    assert (Es : s = k_code k) by lia.
+    replace (u_upper u s) with false by (destruct (u_upper u s); [discriminate|reflexivity]).
+    cbn [k_text k_mods k_event].
+    rewrite matches_rule5; [|rewrite <- Es; destruct (u_letter u s); [discriminate|reflexivity]|rewrite <- Es; assumption|cbn [k_code]; lia|cbn [k_mods]; rewrite Hs2, Hm0; vm_compute; reflexivity].
+    split; [vm_compute; reflexivity|apply zlist_eqb_refl].
+Qed.
+
+(* ================= Alt, Ctrl, Tab/Enter/Esc/Backspace: finite domains ================= *)
+Lemma fmt_c_ascii c : 0 <= c < 128 -> fmt_c c = [c].
+Proof.
+  intros Hc. unfold fmt_c.
+  replace ((0 <=? c) && (c <=? 1114111) && negb ((55296 <=? c) && (c <=? 57343))) with true by lia.
+  cbv zeta. replace (c <? 128) with true by lia. reflexivity.
+Qed.
+
+Lemma encode_alt u k kp ck : xterm_mods (k_mods k) = ModAlt -> Z.land (k_mods k) ModAlt = 2 ->
+  48 <= k_code k <= 127 -> encode_xterm u k kp ck = [27; k_code k].
+Proof.
+  intros Hm Ha Hc. unfold encode_xterm. cbv zeta. rewrite Hm. cbn [Z.eqb ModAlt].
+  replace (k_code k =? KeyTab) with false by (unfold KeyTab; lia). cbn [andb].
+  rewrite (lookup_kc_none (k_code k)) by (unfold MaxRune; lia).
+  rewrite Ha. cbn [Z.eqb]. rewrite andb_false_r.
+  unfold encode_buf. replace (k_code k <? MaxRune) with true by (unfold MaxRune; lia).
+  cbv zeta. change (land_ne0 ModAlt ModAlt) with true. change (land_ne0 ModAlt ModCtrl) with false.
+  change (land_ne0 ModAlt ModShift) with false. cbv iota.
+  unfold utf8_enc. rewrite fmt_c_ascii by lia. reflexivity.
+Qed.
+
+Lemma i32_small x : 0 <= x < 2147483648 -> i32 x = x.
+Proof. intros H. unfold i32. cbv zeta. rewrite Z.mod_small by lia. replace (x <? 2147483648) with true by lia. reflexivity. Qed.
+
+Lemma encode_ctrl u k kp ck : xterm_mods (k_mods k) = ModCtrl -> Z.land (k_mods k) ModAlt = 0 -> Z.land (k_mods k) ModCtrl = 4 ->
+  97 <= k_code k <= 122 -> u_lower u (k_code k) = true -> encode_xterm u k kp ck = [k_code k - 96].
+Proof.
+  intros Hm Ha Hc Hr Hl. unfold encode_xterm. cbv zeta. rewrite Hm. cbn [Z.eqb ModCtrl].
+  replace (k_code k =? KeyTab) with false by (unfold KeyTab; lia). cbn [andb].
+  rewrite (lookup_kc_none (k_code k)) by (unfold MaxRune; lia).
+  rewrite Hc. cbn [Z.eqb]. rewrite andb_false_r. cbn [andb].
+  unfold encode_buf. replace (k_code k <? MaxRune) with true by (unfold MaxRune; lia).
+  cbv zeta. change (land_ne0 ModCtrl ModAlt) with false. change (land_ne0 ModCtrl ModCtrl) with true. cbv iota.
+  rewrite Hl. unfold utf8_enc. rewrite i32_small by lia. rewrite fmt_c_ascii by lia. reflexivity.
+Qed.
+
+Lemma encode_backtab u k kp ck : xterm_mods (k_mods k) = ModShift -> k_code k = KeyTab ->
+  encode_xterm u k kp ck = [27; 91; 90].
+Proof.
+  intros Hm Hc. unfold encode_xterm. cbv zeta. rewrite Hm, Hc. reflexivity.
+Qed.
+
+Definition alt_chars : list Z := filter alt_char (zrange 48 80).
+Definition ctrl_letters : list Z := filter ctrl_letter (zrange 97 26).
+
+Lemma alt_all : table_check alt_chars (fun c _ => [27; c]) (fun m => Z.ldiff m 192 =? ModAlt) = true.
+Proof. vm_compute. reflexivity. Qed.
+Lemma ctrl_all : table_check ctrl_letters (fun c _ => [c - 96]) (fun m => Z.ldiff m 192 =? ModCtrl) = true.
+Proof. vm_compute. reflexivity. Qed.
+Lemma c0_all : table_check [KeyTab; KeyEnter; KeyEsc] (fun c _ => [c]) (fun m => Z.ldiff m 192 =? 0) = true.
+Proof. vm_compute. reflexivity. Qed.
+Lemma backtab_all : table_check [KeyTab] (fun _ _ => [27; 91; 90]) (fun m => Z.ldiff m 192 =? ModShift) = true.
+Proof. vm_compute. reflexivity. Qed.
+
+Lemma roundtrip_of_transfer u k evs :
+  (exists k', evs = [HKey k'] /\ roundtrip_ok u k [HKey k'] = true /\ k_code k' = k_code k /\ k_mods k' = chord_mods k) ->
+  roundtrip_ok u k evs = true.
+Proof. intros (k' & -> & H & _). exact H. Qed.
+
+Lemma alt_roundtrip u seg k md : mods_in_scope k = true -> chord_alt k = true ->
+  roundtrip_ok u k (forward u seg md (TKey k)) = true.
+Proof.
+  intros Hsc Hp. destruct (scope_split k Hsc) as [Hr H56]. destruct (mods_facts _ Hr H56) as (Hx & Hs2 & _ & Hctl & Halt).
+  unfold chord_alt, chord_mods in Hp. apply andb_true_iff in Hp. destruct Hp as [Hm Hc].
+  assert (Hm0 : Z.ldiff (k_mods k) 192 = 2) by (unfold ModAlt in *; lia).
+  assert (Hin : In (k_code k) alt_chars).
+  { unfold alt_chars. apply filter_In. split; [|assumption].
+    apply zrange_In. unfold alt_char, in_range in Hc. lia. }
+  unfold forward, term_update.
+  rewrite encode_alt; [|rewrite Hx, Hm0; reflexivity|rewrite Halt, Hm0; reflexivity|unfold alt_char, in_range in Hc; lia].
+  apply roundtrip_of_transfer. apply finite_transfer.
+  apply (table_check_use _ _ _ _ _ alt_all Hin Hr H56). rewrite Hm0. reflexivity.
+Qed.
+
+Lemma ctrl_roundtrip u seg k md : oracle_ok u -> mods_in_scope k = true -> chord_ctrl k = true ->
+  roundtrip_ok u k (forward u seg md (TKey k)) = true.
+Proof.
+  intros (_ & _ & Hlow) Hsc Hp. destruct (scope_split k Hsc) as [Hr H56]. destruct (mods_facts _ Hr H56) as (Hx & Hs2 & _ & Hctl & Halt).
+  unfold chord_ctrl, chord_mods in Hp. apply andb_true_iff in Hp. destruct Hp as [Hm Hc].
+  assert (Hm0 : Z.ldiff (k_mods k) 192 = 4) by (unfold ModCtrl in *; lia).
+  assert (Hrange : 97 <= k_code k <= 122) by (unfold ctrl_letter, in_range in Hc; lia).
+  assert (Hin : In (k_code k) ctrl_letters).
+  { unfold ctrl_letters. apply filter_In. split; [|assumption]. apply zrange_In. lia. }
+  unfold forward, term_update.
+  rewrite encode_ctrl; [|rewrite Hx, Hm0; reflexivity|rewrite Halt, Hm0; reflexivity|rewrite Hctl, Hm0; reflexivity|assumption|apply Hlow; assumption].
+  apply roundtrip_of_transfer. apply finite_transfer.
+  apply (table_check_use _ (fun c _ => [c - 96]) _ _ _ ctrl_all Hin Hr H56). rewrite Hm0. reflexivity.
+Qed.
+
+Lemma c0_roundtrip u seg k md : (forall r, seg [r] = [[r]]) -> oracle_ok u -> mods_in_scope k = true -> chord_c0 k = true ->
+  roundtrip_ok u k (forward u seg md (TKey k)) = true.
+Proof.
+  intros Hseg (Hu127 & H127 & _) Hsc Hp. destruct (scope_split k Hsc) as [Hr H56].
+  destruct (mods_facts _ Hr H56) as (Hx & Hs2 & _ & Hctl & Halt).
+  unfold chord_c0, chord_mods in Hp. apply orb_true_iff in Hp. destruct Hp as [Hp|Hp].
+  - apply andb_true_iff in Hp. destruct Hp as [Hm Hc].
+    assert (Hm0 : Z.ldiff (k_mods k) 192 = 0) by lia.
+    unfold forward, term_update.
+    rewrite encode_unmodified; [|lia|unfold KeyTab, KeyEnter, KeyEsc, KeyBackspace, MaxRune in *; lia].
+    destruct (k_code k =? KeyBackspace) eqn:Eb.
+    + (* Backspace is DEL, a printed character for the parser *)
+      assert (Ec : k_code k = 127) by (unfold KeyBackspace in Eb; lia). rewrite Ec.
+      rewrite host_read_printed; [|apply Hseg|lia|reflexivity].
+      unfold decode_key, decode_pre, decode_print. rewrite Hu127. cbn.
+      unfold roundtrip_ok. rewrite matches_rule1; [|cbn [k_code]; lia|cbn [k_mods]; rewrite Hs2, Hm0; vm_compute; reflexivity].
+      unfold chord_mods. rewrite Hm0. vm_compute. reflexivity.
+    + assert (Hin : In (k_code k) [KeyTab; KeyEnter; KeyEsc]) by (cbn [In]; lia).
+      unfold utf8_enc. rewrite fmt_c_ascii by (unfold KeyTab, KeyEnter, KeyEsc in *; lia).
+      apply roundtrip_of_transfer. apply finite_transfer.
+      apply (table_check_use _ (fun c _ => [c]) _ _ _ c0_all Hin Hr H56). rewrite Hm0. reflexivity.
+  - repeat (apply andb_true_iff in Hp; destruct Hp as [Hp ?]).
+    assert (Hm0 : Z.ldiff (k_mods k) 192 = 1) by (unfold ModShift in *; lia).
+    assert (Hc : k_code k = KeyTab) by lia.
+    unfold forward, term_update.
+    rewrite encode_backtab; [|rewrite Hx, Hm0; reflexivity|assumption].
+    apply roundtrip_of_transfer. apply finite_transfer.
+    assert (Hin : In (k_code k) [KeyTab]) by (cbn [In]; lia).
+    apply (table_check_use _ (fun _ _ => [27; 91; 90]) _ _ _ backtab_all Hin Hr H56). rewrite Hm0. reflexivity.
+Qed.
+
+(* ================= key_forward_roundtrip ================= *)
+Theorem key_forward_roundtrip u seg k md : (forall r, seg [r] = [[r]]) -> oracle_ok u ->
+  xterm_expressible u k = true -> roundtrip_ok u k (forward u seg md (TKey k)) = true.
+Proof.
+  intros Hseg Ho Hx. unfold xterm_expressible in Hx. apply andb_true_iff in Hx. destruct Hx as [Hsc Hx].
+  apply orb_true_iff in Hx. destruct Hx as [Hx|Hx]; [|apply c0_roundtrip; assumption].
+  apply orb_true_iff in Hx. destruct Hx as [Hx|Hx]; [|unfold chord_special in Hx; apply andb_true_iff in Hx; destruct Hx as [Hc _];
+    apply roundtrip_of_transfer; apply special_roundtrip; assumption].
+  apply orb_true_iff in Hx. destruct Hx as [Hx|Hx]; [|apply ctrl_roundtrip; assumption].
+  apply orb_true_iff in Hx. destruct Hx as [Hx|Hx]; [|apply alt_roundtrip; assumption].
+  apply orb_true_iff in Hx. destruct Hx as [Hx|Hx]; [|apply shift_roundtrip; assumption].
+  apply plain_roundtrip; assumption.
+Qed.
+
+
+Theorem key_forward_text u seg k md : (forall r, seg [r] = [[r]]) -> oracle_ok u ->
+  mods_in_scope k = true -> chord_plain k || chord_shift u k = true ->
+  text_ok k (forward u seg md (TKey k)) = true.
+Proof.
+  intros Hseg Ho Hsc Hx. apply orb_true_iff in Hx. destruct Hx as [Hx|Hx].
+  - apply plain_roundtrip; assumption.
+  - apply shift_roundtrip; assumption.
+Qed.
+
+(* ================= the child's cursor-key and keypad modes ================= *)
+Lemma cursor_plain c x kp : lookup1 cursor_finals c = Some x ->
+  encode_plain c kp true = Some [27; 79; x] /\ encode_plain c kp false = Some [27; 91; x].
+Proof.
+  unfold lookup1, cursor_finals. cbn [find fst snd].
+  repeat match goal with
+  | |- context [?K =? c] => destruct (K =? c) eqn:E;
+      [apply Z.eqb_eq in E; subst c; intros Hx; injection Hx as <-; destruct kp; vm_compute; split; reflexivity|clear E]
+  end.
+  discriminate.
+Qed.
+
+Theorem cursor_mode_selects u k kp x : xterm_mods (k_mods k) = 0 -> lookup1 cursor_finals (k_code k) = Some x ->
+  encode_xterm u k kp true = [27; 79; x] /\ encode_xterm u k kp false = [27; 91; x].
+Proof.
+  intros Hm Hl. destruct (cursor_plain _ _ kp Hl) as [A B].
+  unfold encode_xterm. cbv zeta. rewrite Hm. cbn [Z.eqb]. rewrite A, B. split; reflexivity.
+Qed.
+
+Lemma lookup_str_in t c v : lookup_str t c = Some v -> In c (map fst t).
+Proof.
+  unfold lookup_str. induction t as [|e t IH]; cbn [find map]; [discriminate|].
+  destruct (fst e =? c) eqn:E; [intros _; left; lia|intros H; right; auto].
+Qed.
+
+Lemma lookup1_notin t c : lookup1 t c = None -> ~ In c (map fst t).
+Proof.
+  unfold lookup1. induction t as [|e t IH]; cbn [find map In]; [tauto|].
+  destruct (fst e =? c) eqn:E; [discriminate|]. intros H [H1|H1]; [lia|exact (IH H H1)].
+Qed.
+
+Lemma cursor_tables_keys :
+  forallb (fun e => existsb (Z.eqb (fst e)) (map fst cursor_finals)) cursorKeysApplicationMode = true /\
+  forallb (fun e => existsb (Z.eqb (fst e)) (map fst cursor_finals)) cursorKeysNormalMode = true.
+Proof. vm_compute. split; reflexivity. Qed.
+
+Lemma lookup_str_other t c : forallb (fun e => existsb (Z.eqb (fst e)) (map fst cursor_finals)) t = true ->
+  lookup1 cursor_finals c = None -> lookup_str t c = None.
+Proof.
+  intros Ht Hl. destruct (lookup_str t c) as [v|] eqn:E; [|reflexivity]. exfalso.
+  apply lookup_str_in in E. apply in_map_iff in E. destruct E as (e & He & Hin).
+  rewrite forallb_forall in Ht. specialize (Ht _ Hin). apply existsb_exists in Ht.
+  destruct Ht as (y & Hy & Hye). apply Z.eqb_eq in Hye.
+  apply (lookup1_notin _ _ Hl). rewrite <- He, Hye. exact Hy.
+Qed.
+
+(* DECCKM matters for the unmodified cursor keys only *)
+Theorem cursor_mode_only_cursor u k kp :
+  xterm_mods (k_mods k) <> 0 \/ lookup1 cursor_finals (k_code k) = None ->
+  encode_xterm u k kp true = encode_xterm u k kp false.
+Proof.
+  intros [Hm|Hl]; unfold encode_xterm; cbv zeta.
+  - replace (xterm_mods (k_mods k) =? 0) with false by lia. reflexivity.
+  - destruct cursor_tables_keys as [T1 T2]. unfold encode_plain.
+    rewrite (lookup_str_other _ _ T1 Hl), (lookup_str_other _ _ T2 Hl). reflexivity.
+Qed.
+
+(* DECKPAM selects nothing: the two keypad tables are equal *)
+Theorem keypad_mode_selects_nothing u k ck : encode_xterm u k true ck = encode_xterm u k false ck.
+Proof. unfold encode_xterm, encode_plain. change applicationKeymap with numericKeymap. reflexivity. Qed.
+
+(* ================= paste brackets ================= *)
+Theorem paste_forward u seg md :
+  (m_paste md = true -> forward u seg md TPasteStart = [HPasteStart] /\ forward u seg md TPasteEnd = [HPasteEnd]) /\
+  (m_paste md = false -> term_update u md TPasteStart = [] /\ term_update u md TPasteEnd = []).
+Proof.
+  split; intros Hp; unfold forward, term_update; rewrite Hp; split; reflexivity.
+Qed.
+
+(* ================= mouse: gating ================= *)
+Lemma handle_mouse_enabled md m : m_sgr md = true -> mouse_enabled md m = true ->
+  handle_mouse md m =
+    sgr_report (if ms_type m =? EventMotion then i64 (ms_button m + 32) else ms_button m) (ms_col m) (ms_row m)
+               (if ms_type m =? EventRelease then 109 else 77).
+Proof.
+  intros Hs He. unfold mouse_enabled, is_click, is_drag, is_plain_motion, tracking in He.
+  unfold handle_mouse. rewrite Hs. unfold EventMotion, EventPress, EventRelease in *.
+  generalize dependent sgr_report. intros rep.
+  destruct (m_buttons md), (m_drag md), (m_motion md);
+  destruct (ms_type m =? 3) eqn:E3; destruct (ms_type m =? 0) eqn:E0; destruct (ms_type m =? 2) eqn:E2;
+  destruct (ms_button m =? MouseNoButton) eqn:Eb; cbn [negb andb orb] in He |- *;
+  try discriminate; try reflexivity; exfalso; lia.
+Qed.
+
+Theorem nothing_unless_enabled md m :
+  is_click m || (ms_type m =? EventMotion) = true -> mouse_enabled md m = false ->
+  handle_mouse md m =
+    if altscroll_applies md m
+    then (if ms_button m =? MouseWheelUp then ss3_up ++ ss3_up ++ ss3_up else ss3_down ++ ss3_down ++ ss3_down)
+    else [].
+Proof.
+  intros Ht He. unfold handle_mouse, altscroll_applies.
+  destruct (tracking md) eqn:Etr.
+  - (* some tracking mode is on: the event is a motion event the child did not ask for *)
+    unfold tracking in Etr. rewrite <- !negb_orb, Etr. cbn [negb andb].
+    unfold mouse_enabled, is_click, is_drag, is_plain_motion in He. unfold tracking in He. rewrite Etr in He.
+    unfold is_click in Ht.
+    destruct ((ms_type m =? EventPress) || (ms_type m =? EventRelease)) eqn:Ec; cbn [andb orb] in He; [discriminate|].
+    cbn [orb] in Ht. rewrite Ht in He |- *. cbn [andb] in He |- *.
+    destruct (ms_button m =? MouseNoButton) eqn:Eb; cbn [negb andb orb] in He |- *.
+    + rewrite He. reflexivity.
+    + rewrite orb_false_r in He. apply orb_false_iff in He. destruct He as [Hd Hm].
+      rewrite Hd, Hm. cbn [negb andb]. reflexivity.
+  - unfold tracking in Etr. rewrite <- !negb_orb, Etr. cbn [negb andb].
+    destruct (m_altscroll md && m_smcup md); [|reflexivity].
+    destruct (ms_button m =? MouseWheelUp) eqn:Eu; destruct (ms_button m =? MouseWheelDown) eqn:Ed; cbn [orb].
+    + unfold MouseWheelUp, MouseWheelDown in *. lia.
+    + apply app_nil_r.
+    + reflexivity.
+    + reflexivity.
+Qed.
+
+(* ================= mouse: decimal printing and the parser's CSI states ================= *)
+Lemma i64_small x : 0 <= x < 9223372036854775808 -> i64 x = x.
+Proof.
+  intros H. unfold i64. cbv zeta. rewrite Z.mod_small by lia.
+  replace (x <? 9223372036854775808) with true by lia. reflexivity.
+Qed.
+
+Lemma dec_fuel_app : forall f n tail, dec_fuel f n tail = dec_fuel f n [] ++ tail.
+Proof.
+  induction f as [|f IH]; intros n tail; cbn [dec_fuel]; [reflexivity|].
+  destruct (n <? 10); [reflexivity|].
+  rewrite (IH (n / 10) ((48 + n mod 10) :: tail)), (IH (n / 10) [48 + n mod 10]).
+  rewrite <- app_assoc. reflexivity.
+Qed.
+
+Definition pbyte (d : Z) : Prop := 48 <= d <= 57 \/ d = 59.
+
+Lemma dec_fuel_digits : forall f n, 0 <= n -> Forall pbyte (dec_fuel f n []).
+Proof.
+  induction f as [|f IH]; intros n Hn; cbn [dec_fuel]; [constructor|].
+  destruct (n <? 10) eqn:E.
+  - constructor; [left; lia|constructor].
+  - rewrite dec_fuel_app. apply Forall_app. split; [apply IH; lia|].
+    constructor; [left; lia|constructor].
+Qed.
+
+Lemma dec_fuel_nonempty f n tail : dec_fuel (S f) n tail <> [].
+Proof.
+  cbn [dec_fuel]. destruct (n <? 10); [discriminate|].
+  rewrite dec_fuel_app. intros H. apply app_eq_nil in H. destruct H; discriminate.
+Qed.
+
+(* csiDispatch's parameter decoder reads back what %d printed *)
+Lemma csi_params_dec : forall f n tail cur acc, 0 <= n < 10 ^ Z.of_nat f -> n < 9223372036854775808 ->
+  csi_params (dec_fuel f n tail) 0 cur acc = csi_params tail n cur acc.
+Proof.
+  induction f as [|f IH]; intros n tail cur acc Hn Hb.
+  - cbn [dec_fuel]. replace n with 0 by (cbn in Hn; lia). reflexivity.
+  - cbn [dec_fuel]. destruct (n <? 10) eqn:E.
+    + cbn [csi_params]. replace (48 + n =? 59) with false by lia. replace (48 + n =? 58) with false by lia.
+      f_equal. rewrite (i64_small (0 * 10)) by lia. rewrite i64_small by lia. lia.
+    + assert (Hp : 10 ^ Z.of_nat (S f) = 10 * 10 ^ Z.of_nat f).
+      { rewrite Nat2Z.inj_succ, Z.pow_succ_r by lia. reflexivity. }
+      rewrite IH by (rewrite Hp in Hn; lia).
+      cbn [csi_params]. replace (48 + n mod 10 =? 59) with false by lia. replace (48 + n mod 10 =? 58) with false by lia.
+      f_equal. rewrite (i64_small (n / 10 * 10)) by lia. rewrite i64_small by lia. lia.
+Qed.
+
+Lemma dec_to_nonneg n tail : 0 <= n -> dec_to n tail = dec_fuel 20 n tail.
+Proof. intros H. unfold dec_to. replace (n <? 0) with false by lia. reflexivity. Qed.
+
+Definition pcsi (i ps : list Z) : pst :=
+  {| st := CsiParam; exitf := None; inter := i; params := ps; ignoreST := false;
+     oscData := []; apcData := []; dcs := dcs_empty; timer := false |}.
+
+Lemma step_param i ps d : pbyte d -> step (pcsi i ps) d = (pcsi i (ps ++ [d]), [], true).
+Proof.
+  intros Hd.
+  assert (H : d = 48 \/ d = 49 \/ d = 50 \/ d = 51 \/ d = 52 \/ d = 53 \/ d = 54 \/ d = 55 \/ d = 56 \/ d = 57 \/ d = 59)
+    by (unfold pbyte in Hd; lia).
+  repeat (destruct H as [H|H]; [subst d; reflexivity|]). subst d; reflexivity.
+Qed.
+
+Lemma feed_cons p r rest p1 : step p r = (p1, [], true) -> feed p (r :: rest) = feed p1 rest.
+Proof. intros H. cbn [feed]. rewrite H. destruct (feed p1 rest) as [[p2 o2] go2]. reflexivity. Qed.
+
+Lemma feed_params i : forall ds ps rest, Forall pbyte ds -> feed (pcsi i ps) (ds ++ rest) = feed (pcsi i (ps ++ ds)) rest.
+Proof.
+  induction ds as [|d ds IH]; intros ps rest Hf; [rewrite app_nil_r; reflexivity|].
+  inversion Hf as [|? ? Hd Hds]; subst. cbn [app].
+  rewrite (feed_cons _ _ _ _ (step_param i ps d Hd)). rewrite IH by assumption.
+  rewrite <- app_assoc. reflexivity.
+Qed.
+
+Lemma step_final i ps fin : fin = 77 \/ fin = 109 -> ps <> [] ->
+  step (pcsi i ps) fin = (set_st (pcsi i ps) Ground, [ICsi i (csi_params ps 0 [] []) fin], true).
+Proof.
+  intros Hf Hps. destruct ps as [|a ps]; [contradiction|].
+  destruct Hf; subst fin; reflexivity.
+Qed.
+
+Lemma decode_all_ascii : forall bs, Forall (fun b => b < 128) bs -> decode_all bs = bs.
+Proof.
+  unfold decode_all. induction bs as [|b bs IH]; intros Hf; [reflexivity|].
+  inversion Hf as [|? ? Hb Hbs]; subst. cbn [length decode_fuel decode1].
+  replace (b <? 128) with true by lia. rewrite IH by assumption. reflexivity.
+Qed.
+
+Lemma pbyte_ascii ds : Forall pbyte ds -> Forall (fun b => b < 128) ds.
+Proof. intros H. eapply Forall_impl; [|exact H]. unfold pbyte. intros a Ha. lia. Qed.
+
+(* an SGR report is parsed into one CSI with the three numbers *)
+Local Opaque dec_fuel.
+Lemma parse_sgr b c r fin : fin = 77 \/ fin = 109 ->
+  0 <= b < 9223372036854775808 -> 0 <= c < 9223372036854775808 -> 0 <= r < 9223372036854775808 ->
+  parse_segments [27 :: 91 :: 60 :: dec_to b (59 :: dec_to c (59 :: dec_to r [fin])); []] =
+  [ICsi [60] [[b]; [c]; [r]] fin; IEof].
+Proof.
+  intros Hf Hb Hc Hr.
+  rewrite !dec_to_nonneg by lia.
+  set (ds := dec_fuel 20 b (59 :: dec_fuel 20 c (59 :: dec_fuel 20 r []))).
+  assert (Hbytes : dec_fuel 20 b (59 :: dec_fuel 20 c (59 :: dec_fuel 20 r [fin])) = ds ++ [fin]).
+  { unfold ds. rewrite (dec_fuel_app 20 r [fin]). set (R := dec_fuel 20 r []).
+    rewrite (dec_fuel_app 20 c (59 :: R ++ [fin])), (dec_fuel_app 20 c (59 :: R)). set (C := dec_fuel 20 c []).
+    rewrite (dec_fuel_app 20 b (59 :: C ++ 59 :: R ++ [fin])), (dec_fuel_app 20 b (59 :: C ++ 59 :: R)).
+    rewrite <- !app_assoc. cbn [app]. rewrite <- !app_assoc. reflexivity. }
+  assert (Hds : Forall pbyte ds).
+  { unfold ds. rewrite (dec_fuel_app 20 b), (dec_fuel_app 20 c).
+    apply Forall_app. split; [apply dec_fuel_digits; lia|].
+    constructor; [right; reflexivity|]. apply Forall_app. split; [apply dec_fuel_digits; lia|].
+    constructor; [right; reflexivity|]. apply dec_fuel_digits; lia. }
+  assert (Hne : ds <> []) by (unfold ds; apply dec_fuel_nonempty).
+  assert (Hpar : csi_params ds 0 [] [] = [[b]; [c]; [r]]).
+  { assert (P20 : 10 ^ Z.of_nat 20 = 100000000000000000000) by (vm_compute; reflexivity).
+    unfold ds. rewrite csi_params_dec by (rewrite ?P20; lia). cbn [csi_params Z.eqb Pos.eqb].
+    rewrite csi_params_dec by (rewrite ?P20; lia). cbn [csi_params Z.eqb Pos.eqb].
+    rewrite csi_params_dec by (rewrite ?P20; lia). reflexivity. }
+  rewrite Hbytes.
+  rewrite (parse_one _ (set_st (pcsi [60] ds) Ground) [ICsi [60] [[b]; [c]; [r]] fin]); [reflexivity| |reflexivity|reflexivity].
+  rewrite decode_all_ascii.
+  2:{ repeat (constructor; [lia|]). apply Forall_app. split; [apply pbyte_ascii; assumption|].
+      constructor; [lia|constructor]. }
+  rewrite (feed_cons pinit 27 _ (fst (fst (step pinit 27)))) by (vm_compute; reflexivity).
+  rewrite (feed_cons _ 91 _ (fst (fst (step (fst (fst (step pinit 27))) 91)))) by (vm_compute; reflexivity).
+  rewrite (feed_cons _ 60 _ (pcsi [60] [])) by (vm_compute; reflexivity).
+  rewrite feed_params by assumption. cbn [app feed].
+  rewrite (step_final [60] ds fin Hf Hne). rewrite Hpar. reflexivity.
+Qed.
+Local Transparent dec_fuel.
+
+(* ================= mouse: the round trip ================= *)
+Lemma button_ok_range b : button_ok b = true -> 0 <= b < 256.
+Proof.
+  unfold button_ok, mouse_buttonBits. intros H. apply Z.eqb_eq in H.
+  assert (E : Z.land b 195 = Z.land (Z.land b 195) (Z.ones 8)).
+  { rewrite <- Z.land_assoc. reflexivity. }
+  rewrite Z.land_ones in E by lia. rewrite H in E.
+  pose proof (Z.mod_pos_bound b (2 ^ 8) ltac:(lia)) as Hb. rewrite <- E in Hb. lia.
+Qed.
+
+Definition mouse_mods_of (b : Z) : Z :=
+  Z.lor (Z.lor (if land_ne0 b mouseModShift then ModShift else 0) (if land_ne0 b mouseModAlt then ModAlt else 0))
+        (if land_ne0 b mouseModCtrl then ModCtrl else 0).
+
+Definition button_check (b : Z) : bool :=
+  if button_ok b then
+    (Z.land b mouse_buttonBits =? b) && negb (land_ne0 b mouse_motion) && (mouse_mods_of b =? 0)
+    && (Z.land (b + 32) mouse_buttonBits =? b) && land_ne0 (b + 32) mouse_motion && (mouse_mods_of (b + 32) =? 0)
+  else true.
+
+Lemma button_facts b : button_ok b = true ->
+  Z.land b mouse_buttonBits = b /\ land_ne0 b mouse_motion = false /\ mouse_mods_of b = 0 /\
+  Z.land (b + 32) mouse_buttonBits = b /\ land_ne0 (b + 32) mouse_motion = true /\ mouse_mods_of (b + 32) = 0.
+Proof.
+  intros Hb. pose proof (button_ok_range b Hb) as Hr.
+  assert (Hall : forallb button_check (zrange 0 256) = true) by (vm_compute; reflexivity).
+  rewrite forallb_forall in Hall. specialize (Hall b (zrange_In b 256 0 ltac:(lia))).
+  unfold button_check in Hall. rewrite Hb in Hall.
   repeat (apply andb_true_iff in Hall; destruct Hall as [Hall ?]).
-  rewrite <- Ec, <- Em, <- Ee in *.
-  assert (Hcode : k_code k' = k_code k) by lia.
-  assert (Hmods : k_mods k' = chord_mods k) by (unfold chord_mods; lia).
-  split; [|auto].
-  unfold roundtrip_ok. rewrite matches_rule1; [|lia|lia].
-  unfold chord_mods. cbn [andb]. apply andb_true_iff. split; lia.
+  repeat split; try lia; try assumption. destruct (land_ne0 b mouse_motion); [discriminate|reflexivity].
+Qed.
+
+Lemma parse_mouse_sgr B C R fin :
+  parse_mouse [60] [[B]; [C]; [R]] fin =
+  PMSome (mkMouse (Z.land B mouse_buttonBits) (i64 (R - 1)) (i64 (C - 1))
+                  (if land_ne0 B mouse_motion then EventMotion
+                   else if fin =? 77 then EventPress else if fin =? 109 then EventRelease else 0)
+                  (mouse_mods_of B)).
+Proof. reflexivity. Qed.
+
+Lemma host_sgr u seg B C R fin : fin = 77 \/ fin = 109 ->
+  host_items u seg false [ICsi [60] [[B]; [C]; [R]] fin; IEof] =
+  [HMouse (mkMouse (Z.land B mouse_buttonBits) (i64 (R - 1)) (i64 (C - 1))
+                   (if land_ne0 B mouse_motion then EventMotion
+                    else if fin =? 77 then EventPress else if fin =? 109 then EventRelease else 0)
+                   (mouse_mods_of B))].
+Proof.
+  intros [->| ->]; cbn [host_items]; unfold host_csi, classify_csi; cbn [Z.eqb Pos.eqb orb];
+  rewrite parse_mouse_sgr; reflexivity.
+Qed.
+
+Theorem mouse_forward_roundtrip u seg md m :
+  m_sgr md = true -> mouse_enabled md m = true -> button_ok (ms_button m) = true ->
+  in_i63 (ms_col m) = true -> in_i63 (ms_row m) = true ->
+  forward u seg md (TMouse m) = [HMouse (mkMouse (ms_button m) (ms_row m) (ms_col m) (ms_type m) 0)].
+Proof.
+  intros Hs He Hb Hc Hr. unfold in_i63 in Hc, Hr.
+  assert (Hc' : 0 <= ms_col m < 9223372036854775807) by lia.
+  assert (Hr' : 0 <= ms_row m < 9223372036854775807) by lia. clear Hc Hr.
+  destruct (button_facts _ Hb) as (F1 & F2 & F3 & F4 & F5 & F6).
+  pose proof (button_ok_range _ Hb) as Hbr.
+  unfold forward, term_update, host_read. rewrite (handle_mouse_enabled md m Hs He).
+  unfold sgr_report. rewrite (i64_small (ms_col m + 1)), (i64_small (ms_row m + 1)) by lia.
+  assert (Hty : ms_type m = EventMotion \/ ms_type m = EventPress \/ ms_type m = EventRelease).
+  { unfold mouse_enabled, is_click, is_drag, is_plain_motion in He. unfold EventMotion, EventPress, EventRelease in *.
+    destruct (ms_type m =? 3) eqn:E3; destruct (ms_type m =? 0) eqn:E0; destruct (ms_type m =? 2) eqn:E2;
+    cbn [andb orb] in He; try discriminate; lia. }
+  destruct Hty as [Ht|[Ht|Ht]]; rewrite Ht; cbn [Z.eqb EventMotion EventPress EventRelease Pos.eqb].
+  - rewrite (i64_small (ms_button m + 32)) by lia.
+    rewrite parse_sgr; [|left; reflexivity|lia|lia|lia].
+    rewrite host_sgr by (left; reflexivity). rewrite F4, F5, F6.
+    rewrite (i64_small (ms_row m + 1 - 1)), (i64_small (ms_col m + 1 - 1)) by lia.
+    replace (ms_row m + 1 - 1) with (ms_row m) by lia. replace (ms_col m + 1 - 1) with (ms_col m) by lia. reflexivity.
+  - rewrite parse_sgr; [|left; reflexivity|lia|lia|lia].
+    rewrite host_sgr by (left; reflexivity). rewrite F1, F2, F3.
+    rewrite (i64_small (ms_row m + 1 - 1)), (i64_small (ms_col m + 1 - 1)) by lia.
+    replace (ms_row m + 1 - 1) with (ms_row m) by lia. replace (ms_col m + 1 - 1) with (ms_col m) by lia. reflexivity.
+  - rewrite parse_sgr; [|right; reflexivity|lia|lia|lia].
+    rewrite host_sgr by (right; reflexivity). rewrite F1, F2, F3.
+    rewrite (i64_small (ms_row m + 1 - 1)), (i64_small (ms_col m + 1 - 1)) by lia.
+    replace (ms_row m + 1 - 1) with (ms_row m) by lia. replace (ms_col m + 1 - 1) with (ms_col m) by lia. reflexivity.
+Qed.
+
+(* what is lost: the modifiers held with the mouse event are not forwarded *)
+Theorem mouse_modifiers_dropped md m : handle_mouse md m = handle_mouse md (mkMouse (ms_button m) (ms_row m) (ms_col m) (ms_type m) 0).
+Proof. reflexivity. Qed.
+
+(* the built-in ASCII oracle satisfies the hypotheses *)
+Lemma ascii_oracle_ok : oracle_ok ascii_uni.
+Proof.
+  unfold oracle_ok. split; [reflexivity|]. split.
+  - intros r Hu. unfold ascii_uni, uni_of in *. cbn [u_upper u_tolower] in *. unfold info_of in *.
+    cbn [find] in *. destruct (in_range r 0 127) eqn:E; [|cbn in Hu; discriminate].
+    unfold ascii_info in *.
+    destruct (in_range r 65 90) eqn:E1; destruct (in_range r 97 122) eqn:E2; destruct (in_range r 32 126) eqn:E3;
+    cbn in Hu |- *; try discriminate; unfold in_range in *; lia.
+  - intros c Hc. unfold ascii_uni, uni_of. cbn [u_lower]. unfold info_of.
+    replace (in_range c 0 127) with true by (unfold in_range; lia). unfold ascii_info.
+    replace (in_range c 65 90) with false by (unfold in_range; lia).
+    replace (in_range c 97 122) with true by (unfold in_range; lia).
+    destruct (in_range c 32 126); reflexivity.
 Qed.
